@@ -58,7 +58,7 @@ class Session:
         open(self.log, 'w').close()
         for c in crates:
             self.db.add_crate(c, self.log)
-        self.decider = Decider(timeout_s=60 if tier == 'quick' else 600, cross=(tier == 'thorough') or os.environ.get('VERIF_CROSS') == '1', seed=seed)
+        self.decider = Decider(timeout_s=150 if tier == 'quick' else 900, cross=(tier == 'thorough') or os.environ.get('VERIF_CROSS') == '1', seed=seed)
         self.obligations = []
         self.encoded = {}
         self.used_contracts = {}
